@@ -9,7 +9,8 @@ REPO_SRCS = [
     "src/Factored/Bandit/Algorithms/Utils/LocalSearch.cpp",
     "src/Factored/Bandit/Algorithms/Utils/ReusingIterativeLocalSearch.cpp",
 ]
-AXIOM_ALLOW = []
+AXIOM_ALLOW = ["ClassicalDedekindReals.sig_forall_dec", "ClassicalDedekindReals.sig_not_dec",
+               "FunctionalExtensionality.functional_extensionality_dep"]   # Coq's Reals, used only by the UCVE theorems
 RULE = ("random rule sets: 1..6 agents with 1..4 actions, 0..10 rules over 1..3 agents each (repeated, nested, "
         "overlapping, disconnected key sets; unmentioned agents; negative / zero dyadic payoffs), 1..3 rule sets "
         "per case run on the same maximiser/graph objects; *mix kinds: one maximiser (VE: and graph) object over 2..4 "
@@ -28,6 +29,10 @@ TRUSTED_BASE = [
     "(value and, with the hook UCVE::verifBoundsObserver, the pruning bounds of every removal are compared), its "
     "optimality is NOT proved; comparisons a+sqrt(b) use the Coq function sqrt_sum_le (proved exact, ProofsSqrt.v) "
     "where the C++ uses doubles; extractDominated by meaning",
+    "AITOOLBOX_VERIF hook UCVE::verifBoundsObserver (/repo c2b3fd6): reports (agent, x_l, x_u) at the end of "
+    "Global::beginRemoval; trusted to pass the values the pruning of that removal actually uses",
+    "UCVE theorems over the reals rely on Coq's standard-library real-number axioms (sig_forall_dec, sig_not_dec, "
+    "functional_extensionality_dep)",
 ]
 ASSUMPTIONS = [
     "every agent has at least one action; rule keys are non-empty, strictly increasing, name existing agents; "
